@@ -307,6 +307,60 @@ class RenameAll(ast.NodeTransformer):
         return node
 
 
+_CMP = {ast.Gt: ">", ast.GtE: "≥", ast.Lt: "<", ast.LtE: "≤", ast.Eq: "=", ast.NotEq: "≠"}
+
+
+def tr_eof(node):
+    """the end-of-input test of `_find_iter` (names normalised: v1 = text, p2 = chunk) as a Lean Bool
+    term over n = len(text), k = chunk.  Truthiness of `text` is `n != 0` for str and bytes alike; a
+    comparison of `text` with a literal is NOT accepted (`text == ''` is false for b'')."""
+    def num(e):
+        if isinstance(e, ast.Call) and src(e) == "len(v1)":
+            return "n"
+        if isinstance(e, ast.Name) and e.id == "p2":
+            return "k"
+        if isinstance(e, ast.Constant) and isinstance(e.value, int) and not isinstance(e.value, bool) and e.value >= 0:
+            return str(e.value)
+        raise Unsupported("end-of-input test: number expected, got " + src(e))
+
+    def b(e):
+        if isinstance(e, ast.Name) and e.id == "v1":
+            return "(n != 0)"
+        if isinstance(e, ast.UnaryOp) and isinstance(e.op, ast.Not):
+            return "(!" + b(e.operand) + ")"
+        if isinstance(e, ast.BoolOp):
+            return "(" + (" || " if isinstance(e.op, ast.Or) else " && ").join(b(x) for x in e.values) + ")"
+        if isinstance(e, ast.Compare) and len(e.ops) == 1 and type(e.ops[0]) in _CMP:
+            return "(decide (%s %s %s))" % (num(e.left), _CMP[type(e.ops[0])], num(e.comparators[0]))
+        raise Unsupported("end-of-input test: " + src(e))
+    return b(node)
+
+
+def tr_cast_cond(node, key, groups, alias):
+    """the test of the cast-dict loop as a Lean Bool term over: present = `key in groups`,
+    isNone = `groups[key] is None`, truthy = `bool(groups[key])`.  `groups.get(key)` (or a local alias
+    of it) stands for the value when present and for None when absent."""
+    def is_get(e):
+        return (isinstance(e, ast.Name) and alias is not None and e.id == alias) or \
+            src(e) in ("%s.get(%s)" % (groups, key), "%s.get(%s, None)" % (groups, key))
+
+    def b(e):
+        if isinstance(e, ast.UnaryOp) and isinstance(e.op, ast.Not):
+            return "(!" + b(e.operand) + ")"
+        if isinstance(e, ast.BoolOp):
+            return "(" + (" || " if isinstance(e.op, ast.Or) else " && ").join(b(x) for x in e.values) + ")"
+        if isinstance(e, ast.Compare) and len(e.ops) == 1:
+            op, l, r = e.ops[0], e.left, e.comparators[0]
+            if isinstance(op, (ast.In, ast.NotIn)) and src(l) == key and src(r) in (groups, groups + ".keys()"):
+                return "present" if isinstance(op, ast.In) else "(!present)"
+            if isinstance(op, (ast.Is, ast.IsNot)) and is_get(l) and isinstance(r, ast.Constant) and r.value is None:
+                return "(present && !isNone)" if isinstance(op, ast.IsNot) else "(!(present && !isNone))"
+        if is_get(e):
+            return "(present && truthy)"
+        raise Unsupported("cast dict test: " + src(e))
+    return b(node)
+
+
 def find_iter_shape(fn):
     out = {}
     fn = inline_attribute_aliases(fn)
@@ -332,8 +386,8 @@ def find_iter_shape(fn):
     expect(src(st[2]) == "v2 = list(p1.finditer(v0))", "scan statement: " + src(st[2]))
     # if not text: yield from matches; break
     eof = st[3]
-    expect(isinstance(eof, ast.If) and not eof.orelse and src(eof.test) == "not v1", "end-of-input test: " + src(eof.test)
-           if isinstance(eof, ast.If) else "end-of-input statement is not an `if`")
+    expect(isinstance(eof, ast.If) and not eof.orelse, "end-of-input statement is not an `if` without else")
+    out["eofTest"] = (tr_eof(eof.test), src(eof.test))
     expect(len(eof.body) == 2 and src(eof.body[0]) == "yield from v2" and isinstance(eof.body[1], ast.Break),
            "end-of-input branch is not `yield from matches; break`")
     out["eofYieldsAll"] = True
@@ -389,17 +443,41 @@ def parse_shape(tree, cls, fn):
 
     # --- file argument: if isinstance(file, (str, PathLike)): opener = cm(with open(file) as f: yield f)
     expect(isinstance(f, ast.If), "first statement is not the file test")
-    expect(src(f.test) in {"isinstance(file, (str, %s))" % pl for pl in pathlike}, "file test: " + src(f.test))
-    expect(len(f.body) == 1, "path branch has more than the opener")
-    op1 = is_cm_def(f.body[0], "path branch opener")
+    t = f.test
+    expect(isinstance(t, ast.Call) and src(t.func) == "isinstance" and len(t.args) == 2 and not t.keywords
+           and src(t.args[0]) == "file", "file test: " + src(t))
+    classes = [src(x) for x in (t.args[1].elts if isinstance(t.args[1], ast.Tuple) else [t.args[1]])]
+    expect(all(c == "str" or c in pathlike for c in classes) and len(set(classes)) == len(classes),
+           "file test: " + src(t))
+    out["opensStr"] = "str" in classes
+    out["opensPathLike"] = any(c in pathlike for c in classes)
+    # what is handed to open(): the object itself (open() applies os.fspath), os.fspath(file), or str(file);
+    # a once-assigned local `p = str(file)` in front of the opener is looked through
+    as_is = {"file"} | {"%s(file)" % fp for fp in fspath}
+    via_str = {"str(file)"}
+    alias = {}
+    for st in f.body[:-1]:
+        expect(isinstance(st, ast.Assign) and len(st.targets) == 1 and isinstance(st.targets[0], ast.Name)
+               and src(st.value) in as_is | via_str and st.targets[0].id not in ("file", "pattern", "cast", "chunk"),
+               "path branch has more than the opener: " + src(st))
+        expect(st.targets[0].id not in alias, "path alias assigned twice")
+        alias[st.targets[0].id] = src(st.value)
+    expect(len(f.body) >= 1, "path branch is empty")
+    op1 = is_cm_def(f.body[-1], "path branch opener")
     opener = op1.name
     ob = op1.body
-    opens = {"open(file)"} | {"open(%s(file))" % fp for fp in fspath}
     expect(len(ob) == 1 and isinstance(ob[0], ast.With) and len(ob[0].items) == 1
-           and src(ob[0].items[0].context_expr) in opens
+           and isinstance(ob[0].items[0].context_expr, ast.Call) and src(ob[0].items[0].context_expr.func) == "open"
+           and len(ob[0].items[0].context_expr.args) == 1 and not ob[0].items[0].context_expr.keywords
            and isinstance(ob[0].items[0].optional_vars, ast.Name)
            and len(ob[0].body) == 1 and src(ob[0].body[0]) == "yield " + ob[0].items[0].optional_vars.id,
            "path opener is not `with open(file) as f: yield f`")
+    arg = src(ob[0].items[0].context_expr.args[0])
+    arg = alias.get(arg, arg)
+    expect(arg in as_is | via_str, "path opener opens " + arg)
+    for a in alias:     # an alias must not be rebound anywhere else in parse
+        expect(sum(1 for n in stores_of(body, descend_nested=True) if n == a) == 1, "path alias rebound: " + a)
+    out["openViaStr"] = arg in via_str
     out["pathOpenerCloses"] = True
     expect(len(f.orelse) == 1 and isinstance(f.orelse[0], ast.If)
            and src(f.orelse[0].test) == "hasattr(file, 'read') and callable(file.read)", "file-object test")
@@ -425,10 +503,19 @@ def parse_shape(tree, cls, fn):
            and all(isinstance(x, ast.Name) for x in cb[0].target.elts), "cast dict loop changed: " + src(cfd))
     k, cv = (x.id for x in cb[0].target.elts)
     expect(len({k, cv, gp, "cast"}) == 4, "cast dict loop reuses a name")
-    lb = cb[0].body
-    expect(len(lb) == 1 and isinstance(lb[0], ast.If) and not lb[0].orelse and src(lb[0].test) == "%s in %s" % (k, gp)
-           and [src(x) for x in lb[0].body] == ["%s[%s] = %s(%s[%s])" % (gp, k, cv, gp, k)],
-           "cast dict loop changed: " + src(cfd))
+    lb = list(cb[0].body)
+    val_alias = None
+    if len(lb) == 2 and isinstance(lb[0], ast.Assign) and len(lb[0].targets) == 1 and isinstance(lb[0].targets[0], ast.Name) \
+            and src(lb[0].value) in ("%s.get(%s)" % (gp, k), "%s.get(%s, None)" % (gp, k)):
+        val_alias = lb[0].targets[0].id
+        expect(len({k, cv, gp, "cast", val_alias}) == 5, "cast dict loop reuses a name")
+        lb = lb[1:]
+    expect(len(lb) == 1 and isinstance(lb[0], ast.If) and not lb[0].orelse, "cast dict loop changed: " + src(cfd))
+    out["castApplies"] = (tr_cast_cond(lb[0].test, k, gp, val_alias), src(lb[0].test))
+    applied = {"%s[%s] = %s(%s[%s])" % (gp, k, cv, gp, k)}
+    if val_alias is not None:
+        applied.add("%s[%s] = %s(%s)" % (gp, k, cv, val_alias))
+    expect(len(lb[0].body) == 1 and src(lb[0].body[0]) in applied, "cast dict loop changed: " + src(cfd))
     expect(len(c.orelse) == 1 and isinstance(c.orelse[0], ast.If) and src(c.orelse[0].test) == "callable(cast)"
            and [src(x) for x in c.orelse[0].body] == ["%s = cast" % caster] and len(c.orelse[0].orelse) == 1
            and isinstance(c.orelse[0].orelse[0], ast.Raise) and isinstance(c.orelse[0].orelse[0].exc, ast.Call)
@@ -474,7 +561,7 @@ def lean_bool(b):
 
 def generate():
     errors = []
-    body = "namespace Parse.Gen\n\n"
+    body = "set_option linter.unusedVariables false\nnamespace Parse.Gen\n\n"
     try:
         tree, _ = parse_module("_logger.py")
         cls = find_class(tree, "Logger")
@@ -489,6 +576,15 @@ def generate():
         body += "/-- `end = matches[-%d].end()` -/\ndef trimBack : Nat := %d\n\n" % (fi["trimBack"], fi["trimBack"])
         body += "/-- `yield from matches[:-%d]` -/\ndef yieldHold : Nat := %d\n\n" % (fi["yieldHold"], fi["yieldHold"])
         body += "/-- `buffer = fileobj.read(%d)` -/\ndef initialRead : Nat := %d\n\n" % (fi["initialRead"], fi["initialRead"])
+        body += "/-- `if %s:` – the end-of-input test, as a function of n = len(text) and k = chunk -/\n" % fi["eofTest"][1]
+        body += "def eofTest (n k : Nat) : Bool := %s\n\n" % fi["eofTest"][0]
+        body += ("/-- cast-dict loop `if %s:` – is the converter applied?  present = `key in groups`, isNone = the group did "
+                 "not participate (value None), truthy = bool(value) -/\n") % ps["castApplies"][1]
+        body += "def castApplies (present isNone truthy : Bool) : Bool := %s\n\n" % ps["castApplies"][0]
+        body += "/-- `isinstance(file, (…))`: is a `str` / an `os.PathLike` opened by the function? -/\n"
+        body += "def opensStr : Bool := %s\ndef opensPathLike : Bool := %s\n\n" % (lean_bool(ps["opensStr"]), lean_bool(ps["opensPathLike"]))
+        body += "/-- is the path object turned into `str(file)` before `open()` (instead of `open(file)` / `os.fspath`)? -/\n"
+        body += "def openViaStr : Bool := %s\n\n" % lean_bool(ps["openViaStr"])
         body += "/-- at end of input: `yield from matches; break` -/\ndef eofYieldsAll : Bool := %s\n\n" % lean_bool(fi["eofYieldsAll"])
         body += "/-- path branch: `with open(file) as f: yield f` -/\ndef pathOpenerCloses : Bool := %s\n\n" % lean_bool(ps["pathOpenerCloses"])
         body += "/-- file-object branch: `yield file` (the caller's object is not closed) -/\ndef fileObjectLeftOpen : Bool := %s\n\n" % lean_bool(ps["fileObjectLeftOpen"])
